@@ -50,6 +50,7 @@ pub fn phases(prop: &str, tier: Tier) -> Vec<Phase> {
             Phase { name: "rt-grid", units: 13, seeded: false },
             Phase { name: "rt-seeded", units: if q { 1000 } else { 100_000 }, seeded: true },
             Phase { name: "hw-seeded", units: if q { 800 } else { 80_000 }, seeded: true },
+            Phase { name: "wfault-c05", units: if q { 2000 } else { 200_000 }, seeded: true },
         ],
         "C09" => vec![
             Phase { name: if q { "c09-sweep4" } else { "c09-sweep6" }, units: 78, seeded: false },
@@ -61,14 +62,17 @@ pub fn phases(prop: &str, tier: Tier) -> Vec<Phase> {
             Phase { name: if q { "pair-sweep3" } else { "pair-sweep5" }, units: 13, seeded: false },
             Phase { name: "pair-seeded", units: if q { 300 } else { 40_000 }, seeded: true },
         ],
-        "C11" => vec![Phase { name: if q { "crash-sampled" } else { "crash-full" }, units: if q { 320 } else { 4000 }, seeded: true }],
+        "C11" => vec![
+            Phase { name: "crash-path", units: 4, seeded: false },
+            Phase { name: if q { "crash-sampled" } else { "crash-full" }, units: if q { 320 } else { 4000 }, seeded: true },
+        ],
         "C12" => vec![Phase { name: "wfault", units: if q { 640 } else { 150_000 }, seeded: true }],
         "C07" => vec![
-            Phase { name: "ladder", units: 14, seeded: false },
+            Phase { name: "ladder", units: 15, seeded: false },
             Phase { name: "corrupt", units: if q { 192 } else { 40_000 }, seeded: true },
         ],
         "C17" => vec![
-            Phase { name: "ladder", units: 14, seeded: false },
+            Phase { name: "ladder", units: 15, seeded: false },
             Phase { name: "corrupt", units: if q { 128 } else { 30_000 }, seeded: true },
         ],
         "C13" => vec![
@@ -158,8 +162,10 @@ pub fn run_unit(prop: &str, phase: &str, unit: u64, seed: u64, _tier: Tier, ctx:
         "c09-sweep6" => crate::fam_histw::c09_sweep_unit(unit, 6, ctx, ctl),
         "c10-sweep3" => crate::fam_histw::c10_sweep_unit(unit, 3, ctx, ctl),
         "c10-sweep5" => crate::fam_histw::c10_sweep_unit(unit, 5, ctx, ctl),
+        "crash-path" => crate::fam_crash::path_unit(unit, ctx, ctl),
         "crash-sampled" => crate::fam_crash::unit(derive(seed, "C11/crash", unit), 20_000, ctx, ctl),
         "crash-full" => crate::fam_crash::unit(derive(seed, "C11/crash", unit), usize::MAX, ctx, ctl),
+        "wfault-c05" => crate::fam_wfault::unit_c05(derive(seed, "C05/wfault", unit), ctx, ctl),
         "wfault" => crate::fam_wfault::unit(derive(seed, "C12/wfault", unit), ctx, ctl),
         "corrupt" => crate::fam_corrupt::unit(derive(seed, "C07/corrupt", unit), ctx, ctl),
         "ladder" => crate::fam_corrupt::ladder_unit(unit, ctx, ctl),
@@ -204,7 +210,7 @@ pub fn meta(prop: &str) -> PropMeta {
         },
         "C15" => PropMeta {
             level: "exploration",
-            rule: "all call sequences up to length 4 (quick) / 6 (thorough) over the 13-letter alphabet {iterate 0/1/2/all items, read_nth_shape(0..=3), seek(0..=3), shape_count} on files of n=3 records, for 10 configurations: {ShapeReader with index, ShapeReader without index, complete Reader with rows carrying their index} x {records of pairwise different sizes, records of equal size}, plus 4 configurations (ShapeReader with index, complete Reader) on files re-laid out so that the physical order differs from the index order (reversed with filler; rotated with filler that looks like a record header), enumerated completely (13 + 13^2 + 13^3 + 13^4 histories per configuration in the quick tier). distinct = distinct (configuration, history) pairs; evaluations = histories executed; logical_steps = reader calls.",
+            rule: "all call sequences up to length 4 (quick) / 6 (thorough) over the 15-letter alphabet {iterate 0/1/2/all items, read_nth_shape(0..=3), read_nth_shape_as::<another type>(0..=1) (a random access that fails), seek(0..=3), shape_count} on files of n=3 records, for 10 configurations: {ShapeReader with index, ShapeReader without index, complete Reader with rows carrying their index} x {records of pairwise different sizes, records of equal size}, plus 4 configurations (ShapeReader with index, complete Reader) on files re-laid out so that the physical order differs from the index order (reversed with filler; rotated with filler that looks like a record header), enumerated completely (15 + 15^2 + 15^3 + 15^4 histories per configuration in the quick tier). distinct = distinct (configuration, history) pairs; evaluations = histories executed; logical_steps = reader calls.",
             explanation: "Each history runs on the real reader over in-memory sources; every call's result is checked against a nondeterministic reference model whose state is the set of allowed positions of the next record: fresh / after random access = {0}, after seek(k) = {min(k,n)}, after an iteration that took items from p = {p+taken, 0}. Rows of the complete Reader must carry the index of their shape.",
             exhaustive: true,
         },
@@ -222,7 +228,7 @@ pub fn meta(prop: &str) -> PropMeta {
         },
         "C11" => PropMeta {
             level: "fault_enumeration",
-            rule: "one unit = one seeded workload (type, 1..5 tagged shapes, 0..3 finalize calls anywhere, Direct or BufWriter stack, with index) run once; then every .shp cut point (every event boundary and every byte inside every write) is read without index, and every (shp cut, shx cut) pair - all of them in the thorough tier, an evenly strided sample of at most 20000 per workload in the quick tier - is read with index (sequential + random access at every entry). evaluations = crash states judged; distinct = distinct (workload, shp image hash, shx image hash) triples actually read; duplicates are skipped and counted in reach.",
+            rule: "one unit = one seeded workload (type, 1..5 tagged shapes, 0..3 finalize calls anywhere, Direct or BufWriter stack, with index) run once; then every .shp cut point (every event boundary and every byte inside every write) is read without index, and every (shp cut, shx cut) pair - all of them in the thorough tier, an evenly strided sample of at most 20000 per workload in the quick tier - is read with index (sequential + random access at every entry). evaluations = crash states judged; distinct = distinct (workload, shp image hash, shx image hash) triples actually read; duplicates are skipped and counted in reach. crash-path: 28 deterministic by-path scenarios on the real file system: a (longer) shapefile already exists at the path, ShapeWriter::from_path writes new shapes with an optional finalize and then crashes (mem::forget: buffered bytes are lost).",
             explanation: "Crash states are reconstructed from the recorded event log, not by re-running the writer. Oracle: Ok items before the first Err are a prefix of the shapes written; random access returns shape i or an error; shapes written before a finalize whose Flush on the .shp is inside the prefix are all readable without index.",
             exhaustive: false,
         },
@@ -234,7 +240,7 @@ pub fn meta(prop: &str) -> PropMeta {
         },
         "C07" | "C17" => PropMeta {
             level: "fault_enumeration",
-            rule: "corrupt: one unit = one seeded base file from the real writer (any type, 1..4 records, 1..3 parts) with its .shx and a valid .dbf; enumerated per base file: every 32-bit field of .shp and .shx (header length/version/type, record number/length/type, part and point counts, every part offset, every patch kind, index length/type, every index offset/length) x ~25 boundary values (0, +-1, i32::MIN/MAX, 2^27..2^30 and neighbours, doubles/halves of the original), every truncation length of both files, extensions by 1/7/8/100 bytes and by a copy of the records; sampled per base file: 150 field pairs, 150 bit flips, 40 garbage bodies behind a valid file code. ladder: for every multi-vertex type and the index, declared counts 10^3..2^31-1 (incl. 2^27, 2^28, 2^29 whose byte sizes wrap 32 bits) with mutually consistent record/file lengths and no data behind. Every case drives ~45 reader calls (open, header, count, iterate generic/typed drained, size_hint, read_nth and seek at 0,1,n-1,n,usize::MAX each followed by iteration, read, read_as, complete Reader iterate/seek/read). distinct = distinct (type, field id + value class, outcome signature) triples.",
+            rule: "corrupt: one unit = one seeded base file from the real writer (any type, 1..4 records, 1..3 parts) with its .shx and a valid .dbf; enumerated per base file: every 32-bit field of .shp and .shx (header length/version/type, record number/length/type, part and point counts, every part offset, every patch kind, index length/type, every index offset/length) x ~25 boundary values (0, +-1, i32::MIN/MAX, 2^27..2^30 and neighbours, doubles/halves of the original), every truncation length of both files, extensions by 1/7/8/100 bytes and by a copy of the records; sampled per base file: 150 field pairs, 150 bit flips, 40 garbage bodies behind a valid file code. ladder: for every multi-vertex type and the index, declared counts 10^3..2^31-1 (incl. 2^27, 2^28, 2^29 whose byte sizes wrap 32 bits) with mutually consistent record/file lengths and either no data behind or exactly 1024/1025/2048/5000 elements (4096/4097/9000 index entries) really present; plus valid fully backed files of unusual structure (3000 two-point parts, 2049 patches, 1500 rings, 8193 points, 5000 records). Every case drives ~45 reader calls (open, header, count, iterate generic/typed drained, size_hint, read_nth and seek at 0,1,n-1,n,usize::MAX each followed by iteration, read, read_as, complete Reader iterate/seek/read). distinct = distinct (type, field id + value class, outcome signature) triples.",
             explanation: "Each reader call runs under catch_unwind (overflow checks and debug assertions on) and between begin/end of the counting allocator; iterators are drained through an item cap of (len(shp)+len(shx))/4+16. Workers run under an address-space limit with a watchdog: a worker that dies or stalls is pinpointed to the case and reported as abort/hang. C17 bound per call: peak live bytes and largest single request <= 64 x input bytes + 64 KiB.",
             exhaustive: false,
         },
